@@ -654,18 +654,8 @@ fn run_parallel(
                                     (what, key) = describe_death(&w1);
                                 }
                             }
-                            if confirmed && key.ends_with(" in parse-model") {
-                                // the worker died while waiting for the Lean model of the
-                                // parser (the real parser had already answered): the model's
-                                // failure, not the compiler's
-                                local.hist("parse_model", format!("failed: {key}"));
-                                local.mismatch(
-                                    "parser: Lean model vs real parser",
-                                    json!({"key": format!("parse-diff {key}"), "what": what, "input": input}),
-                                );
-                            } else if confirmed {
-                                viol(&mut local, &what, &key, input);
-                                local.hist("outcome", format!("DIED: {key}"));
+                            if confirmed {
+                                record_death(&mut local, &what, &key, input);
                             }
                             resume = last + 1;
                             // the cases before `last` in this worker ran fine but their
@@ -694,6 +684,26 @@ fn run_parallel(
     });
     let g = Arc::try_unwrap(shared).ok().unwrap().into_inner().unwrap();
     merge(rep, g);
+}
+
+/// A worker died on `input`. While it waited for the Lean model of the parser
+/// (stage `parse-model`: the real parser had already answered) that is the
+/// model's failure, a mismatch; anywhere else the compiler's, a violation.
+fn record_death(rep: &mut Report, what: &str, key: &str, input: Value) {
+    if key.ends_with(" in parse-model") {
+        rep.hist("parse_model", format!("failed: {key}"));
+        if rep.model_mismatches.len() < 200 {
+            rep.model_mismatches.push(json!({
+                "what": "parser: Lean model vs real parser",
+                "key": format!("parse-diff {key}"),
+                "detail": what,
+                "input": input,
+            }));
+        }
+    } else {
+        viol(rep, what, key, input);
+        rep.hist("outcome", format!("DIED: {key}"));
+    }
 }
 
 fn merge(dst: &mut Report, src: Report) {
@@ -846,7 +856,7 @@ fn main() {
             if !matches!(w.ended, Ended::Ok) {
                 let (what, key) = describe_death(&w);
                 rep.evaluations += 1;
-                viol(&mut rep, &what, &key, serde_json::from_str(&args[2]).unwrap_or(Value::Null));
+                record_death(&mut rep, &what, &key, serde_json::from_str(&args[2]).unwrap_or(Value::Null));
             }
             for v in &rep.impl_violations {
                 println!("violation: {} [{}]", v["what"].as_str().unwrap_or(""), v["key"].as_str().unwrap_or(""));
